@@ -29,58 +29,7 @@ pub struct Case {
     pub inner: Option<(u8, usize)>,
 }
 
-/// The same abstract vector reached through the different public routes: the
-/// constructor, the public field, Index/IndexMut, Clone.
-fn build_tree(pred: &[Option<usize>], build: u8) -> PredecessorTree {
-    let n = pred.len();
-    match build % 8 {
-        1 => {
-            let mut t = PredecessorTree::new(n);
-            for (v, p) in pred.iter().enumerate() {
-                t[v] = *p;
-            }
-            t
-        }
-        2 => {
-            let mut t = PredecessorTree::new(1);
-            t.pred = pred.to_vec();
-            t
-        }
-        3 => {
-            // grown through the public field after construction
-            let k = (n / 2).max(1);
-            let mut t = PredecessorTree::new(k);
-            for v in 0..k {
-                t.pred[v] = pred[v];
-            }
-            for p in &pred[k..] {
-                t.pred.push(*p);
-            }
-            t
-        }
-        4 => {
-            // shrunk through the public field
-            let mut v = pred.to_vec();
-            v.extend([Some(0), None, Some(n)]);
-            let mut t = PredecessorTree::from(v);
-            t.pred.truncate(n);
-            t
-        }
-        5 => PredecessorTree::from(pred.to_vec()).clone(),
-        6 => {
-            let mut t = PredecessorTree::new(n + 3);
-            t.clone_from(&PredecessorTree::from(pred.to_vec()));
-            t
-        }
-        7 => {
-            let mut t = PredecessorTree::new(1);
-            t.pred.extend(pred[1..].iter().copied());
-            t.pred[0] = pred[0];
-            t
-        }
-        _ => PredecessorTree::from(pred.to_vec()),
-    }
-}
+use crate::probe::build_tree;
 
 /// A second vector for the re-entrant predicate: the same one, a shorter one
 /// (entries clipped into range) or a longer one.
